@@ -3,7 +3,8 @@ isolated environment (/work/verif-seedtest + /work/repo-seedtest, both at the cu
 the outcome (and the previous outcome as history) in seeded/Cxx-i/meta.json of THIS checkout."""
 import glob, json, os, subprocess, sys
 HERE = os.path.dirname(os.path.dirname(os.path.abspath(__file__)))
-ST, RT = '/work/verif-seedtest', '/work/repo-seedtest'
+LANE = os.environ.get('SEED_LANE', '')
+ST, RT = '/work/verif-seedtest' + LANE, '/work/repo-seedtest' + LANE
 P = sys.argv[1]
 thorough = '--thorough' in sys.argv
 ids = [a for a in sys.argv[2:] if a.isdigit()]
